@@ -117,6 +117,9 @@ async def wait_for_contract(fut, timeout):
 async def sleep_contract(delay, result=None):
     """asyncio.sleep: the task is parked until the harness lets the time pass."""
     ghost("sleeps").append(delay)
+    if ghost("ctx"):  # (C08 waits_double_per_unanswered_attempt) which attempt this wait belongs to, and for what
+        c = ghost("ctx")[0]
+        ghost("waits_of_attempts").append((delay, c._cmd_tx_count, isinstance(c._state, fsm.WantEcho)))
     suspend("sleep")
     return result
 
@@ -607,6 +610,72 @@ def a_second_caller_arrives_at_any_moment(k):
         check(isinstance(ta.exc, exc.ProtocolError), "a send that does not return a packet raises a protocol error")
     check(And(isinstance(ctx._state, fsm.IsInIdle), ctx._cmd is None, ctx._fut is None or ctx._fut.done(), ctx._expiry_timer is None,
               len(ctx._que.items) == 0), "once traffic stops the sender is idle with nothing in flight and nothing queued")
+
+
+@harness("C08", cases=[(r,) for r in (1, 2, 3)], budget_s=900, stubs=STUBS)
+def waits_double_per_unanswered_attempt(retries):
+    """One command that awaits a reply, `retries` retries allowed, from a relaxed sender; every timer gets its first
+    step at once (as on a real loop, where the task starts in the next iteration, long before a packet can arrive).
+    Each attempt ends in one of three ways, chosen freely: the echo is lost; the echo arrives and the reply is lost;
+    both arrive.  Then: the wait for the echo AND the wait for the reply of the k-th attempt are the base timeout
+    doubled once per unanswered attempt before it (capped at 8x)."""
+    loop = Loop()
+    ghost("loop").append(loop)
+    ctx = make_context(loop)
+    ghost("ctx").append(ctx)
+    cmd = FakeCmd("cmd")
+    cmd.src = FakeAddr("18:000730")
+    echo = FakePkt(cmd.tx_header, src="18:123456", dst="01:145038")
+    reply = FakePkt(cmd.rx_header)
+    caller = spawn(ctx.send_cmd(radio_write, cmd, 2, FakeQos(retries, 30.0, True)), start=False)
+    ghost("current_caller").append(caller)
+    start(caller)
+
+    def drain():
+        n = 0
+        while loop.ready and n < 40:
+            run_one(loop, ctx)
+            n += 1
+
+    def timer_fires():
+        lt = ctx._expiry_timer
+        assume(lt is not None and lt.sleeping and not lt.is_cancelled)
+        lt.sleeping = False
+        loop.ready.append(("wake", lt))
+        drain()
+
+    drain()
+    for a in range(retries + 1):
+        if caller.done:
+            break
+        how = sym_choice(f"attempt_{a + 1}", ["echo_lost", "reply_lost", "answered"])
+        if how == "echo_lost":
+            timer_fires()
+            continue
+        loop.ready.append(("pkt", echo))
+        drain()
+        if how == "reply_lost":
+            timer_fires()
+        else:
+            loop.ready.append(("pkt", reply))
+            drain()
+    for d, k, for_echo in ghost("waits_of_attempts"):
+        if for_echo:
+            check(d == 0.5 * (2 ** min(k - 1, 3)), "the wait for the echo of the k-th attempt is the base timeout doubled once per unanswered attempt before it (up to 8x)")
+        else:
+            check(d == 0.5 * (2 ** min(k - 1, 3)), "the wait for the reply of the k-th attempt is the base timeout doubled once per unanswered attempt before it (up to 8x)")
+    check(len(ghost("sent")) <= 1 + retries, "never transmitted more often than the retry budget allows")
+
+
+def kf_an_echo_arrived_before(inp):
+    """Known-finding class: an echo arrived in some attempt (not every attempt lost its echo).  The back-off
+    multiplier is decremented 'assuming success' whenever a timer starts -- also when the reply timer starts
+    after the echo -- so from then on the waits are shorter than 'doubled per unanswered attempt'."""
+    r = False
+    for k, v in inp.items():
+        if k.startswith("attempt_"):
+            r = Or(r, v != "echo_lost")
+    return r
 
 
 @structural("C07")
